@@ -18,6 +18,18 @@ DRVNOTE = (TB + "Hypotheses used as axioms (not proved here): the LR(0)-automato
        "is not modelled. Literature lemma (stated, not mechanised): a shift-reduce run whose every reduction pops rhs(r) and pushes lhs(r) is a reversed rightmost derivation. "
        "The TypeScript driver string is not verified (only the numbers the Go code emits into it).")
 claimed = {
+ "C18": dict(
+   text="Deductive proof that the DOT diagram is drawn from the same dense table the generated parser uses. Calls into gographviz are recorded in a ghost "
+        "call log; DrawGrammar is proved to add one node per state, in state order, under the name state_<n>, built from that state's items (StateGraphNode: "
+        "StateNumber == Index, one child per item); per row: an edge (state_s -> state_d, symbol name) for exactly the cells that hold a state number, a field "
+        "`<symbol>: reduce rule at <r>` for exactly the cells that hold -r, the fill decoration iff the row has the accept code, and the node label is "
+        "extended by all reduce fields whenever there is at least one (also in the accepting state). AddEdge / GenDotGraph are proved to pass exactly these "
+        "names and labels to gographviz. ShowCloure (debug listing) prints state number, left-hand side, the symbols before/after the dot and `at X goto n` "
+        "from the same structures.",
+   note=TB + "Trusted: gographviz itself (AddNode makes the node retrievable under its name - an explicit `assumes` clause), graph.NewGraph, ItemToStr's text "
+        "(a deterministic function of rule and dot; the dot placement inside the string is not verified), fmt.Sprintf / strings.* as pure functions. The "
+        "Show*Set listings of DR/Read/Follow/lookahead sets are not under contract.",
+   design="§5 C18", technique="contract-based deductive verification with a ghost log of external calls"),
  "C02": dict(
    text="Completeness is cut along the pipeline. Deductively proved on the real code: the lookback / includes relations satisfy the DeRemer-Pennello "
         "path conditions (C03; found and fixed: they were ignored), Union is set union and never aliases its first argument (the finished set of another "
